@@ -170,7 +170,11 @@ func TestCheck(t *testing.T) {
 	r.SetRule("cases: (a) every status-list slot handed out by the node (sequential, 8-32 concurrent issuers' goroutines, across a page roll-over) checked pairwise-distinct and in range; " +
 		"(b) every served list after every revoke/issue step compared with the reference bit set (exactly the revoked slots), signature verified by the node's verifier, expiry margin; " +
 		"(c) every verification verdict of revoked and unrevoked credentials, repeated after unrelated operations, re-signing of the list and a restart of the node; " +
-		"(d) verifier-side cases with harness-served lists: refresh, foreign list id, wrong purpose, bad signature, garbage. Distinct by (scenario, issuer/page, step).")
+		"(d) verifier-side cases with harness-served lists: refresh, foreign list id, wrong purpose, bad signature, garbage; credentials with 2-4 credentialStatus entries, the revoked one at every position "+
+		"(list cached / downloaded in that verification), the others clear, missing, 5xx, not JSON, not a credential, bad signature, other subject id, expired, host down, other purpose, other type, index outside the list; "+
+		"(e) fault enumeration under the node's status-list store: for revoke, issue, issue across a roll-over, serve-list (stored / re-issued) a reference run records the SQL statements on status_list*, "+
+		"then each statement fails in turn (gorm callback on the node's DB) and SQLite refuses each kind of write (trigger RAISE(ABORT)); after the fault is cleared: what the node reported (revoked, or after a reported failure the retry) "+
+		"must show in the served list and in verdicts, slots stay unique, lists served under the fault are valid. Distinct by (scenario, issuer/page, step).")
 	r.Require(200, 40)
 	r.Assume("SQLite with a single connection (the only SQL engine in the sandbox): database transactions are serialised, so row-lock behaviour of other engines is not exercised")
 	r.Assume("signed revocation documents are registered through the verifier's RegisterRevocation (the entry the network ambassador calls) with hosted did:web parties; the did:nuts DAG transport of revocations is not exercised")
@@ -222,12 +226,19 @@ func TestCheck(t *testing.T) {
 		}
 		return c
 	}
-	issueOne := func(iss iamflow.Subject, format, scenario string) *issuedCred {
+	tryIssue := func(iss iamflow.Subject, format, scenario string) (*issuedCred, error) {
 		doc, err := w.IssueTo(iss, holder.DID, iamflow.IssueOpts{Format: format, StatusList: true})
+		if err != nil {
+			return nil, err
+		}
+		return record(iss, doc, scenario), nil
+	}
+	issueOne := func(iss iamflow.Subject, format, scenario string) *issuedCred {
+		c, err := tryIssue(iss, format, scenario)
 		if err != nil {
 			r.Fatalf("issue (%s): %v", scenario, err)
 		}
-		return record(iss, doc, scenario)
+		return c
 	}
 
 	// (a1) sequential issuance over all issuers and both formats
@@ -257,6 +268,10 @@ func TestCheck(t *testing.T) {
 		r.Fatalf("storage engine not found")
 	}
 	db := eng.GetSQLDatabase()
+	flt := &sqlFault{}
+	if err := flt.install(db); err != nil { // passive until a fault window is opened in faultMatrix
+		r.Fatalf("installing the SQL fault seam: %v", err)
+	}
 	for round := 0; round < r.Pick(2, 5); round++ {
 		iss := issuers[(round/2)%len(issuers)] // two roll-overs per issuer: the second one starts from a three-page history
 		res := db.Exec("UPDATE status_list SET last_issued_index = ? WHERE issuer = ? AND page = (SELECT MAX(page) FROM status_list WHERE issuer = ?)", maxIndex-3, iss.DID, iss.DID)
@@ -278,12 +293,44 @@ func TestCheck(t *testing.T) {
 
 	// (b)+(c) revoke / serve / verify steps against the model
 	lastBits := map[string][]byte{}
-	checkLists := func(step string) {
-		lists := make([]string, 0, len(model))
-		for l := range model {
-			lists = append(lists, l)
+	evalList := func(step, l string, sl *servedList) {
+		if sl.id != l {
+			r.Violation("C11/list/wrong-id", fmt.Sprintf("list served at %s says it is %s", l, sl.id), nil)
 		}
-		sort.Strings(lists)
+		if sl.purpose != "revocation" {
+			r.Violation("C11/list/wrong-purpose", "served list has purpose "+sl.purpose, nil)
+		}
+		if ok, msg := verifyVC(n, sl.raw); !ok {
+			r.Violation("C11/list/not-valid", "served status list does not verify: "+msg, map[string]any{"list": l, "step": step})
+		}
+		if sl.expires.Before(time.Now().Add(time.Hour)) {
+			r.Violation("C11/list/about-to-expire", fmt.Sprintf("served list expires at %s", sl.expires), map[string]any{"list": l, "step": step})
+		}
+		got := setBits(sl.bits)
+		var want []int
+		for i := range model[l] {
+			want = append(want, i)
+		}
+		sort.Ints(want)
+		if fmt.Sprint(got) != fmt.Sprint(want) {
+			key := "C11/list/bits-differ"
+			for _, i := range want {
+				if !bitSet(sl.bits, i) {
+					key = "C11/list/revoked-bit-missing"
+				}
+			}
+			r.Violation(key, fmt.Sprintf("list %s has bits %v set, revoked slots are %v (%s)", l, got, want, step), nil)
+		}
+		if prev, ok := lastBits[l]; ok {
+			for _, i := range setBits(prev) {
+				if !bitSet(sl.bits, i) {
+					r.Violation("C11/list/bit-cleared", fmt.Sprintf("bit %d of %s was set in an earlier fetch and is clear now (%s)", i, l, step), nil)
+				}
+			}
+		}
+		lastBits[l] = sl.bits
+	}
+	checkListSet := func(step string, lists []string) {
 		for _, l := range lists {
 			sl, err := fetchList(l)
 			r.Case("list/"+step+"/"+l[strings.LastIndex(l, ":")+1:], true)
@@ -292,43 +339,18 @@ func TestCheck(t *testing.T) {
 				r.Violation("C11/list/unavailable", "status list the node itself named cannot be served: "+err.Error(), map[string]any{"list": l, "step": step})
 				continue
 			}
-			if sl.id != l {
-				r.Violation("C11/list/wrong-id", fmt.Sprintf("list served at %s says it is %s", l, sl.id), nil)
-			}
-			if sl.purpose != "revocation" {
-				r.Violation("C11/list/wrong-purpose", "served list has purpose "+sl.purpose, nil)
-			}
-			if ok, msg := verifyVC(n, sl.raw); !ok {
-				r.Violation("C11/list/not-valid", "served status list does not verify: "+msg, map[string]any{"list": l, "step": step})
-			}
-			if sl.expires.Before(time.Now().Add(time.Hour)) {
-				r.Violation("C11/list/about-to-expire", fmt.Sprintf("served list expires at %s", sl.expires), map[string]any{"list": l, "step": step})
-			}
-			got := setBits(sl.bits)
-			var want []int
-			for i := range model[l] {
-				want = append(want, i)
-			}
-			sort.Ints(want)
-			if fmt.Sprint(got) != fmt.Sprint(want) {
-				key := "C11/list/bits-differ"
-				for _, i := range want {
-					if !bitSet(sl.bits, i) {
-						key = "C11/list/revoked-bit-missing"
-					}
-				}
-				r.Violation(key, fmt.Sprintf("list %s has bits %v set, revoked slots are %v (%s)", l, got, want, step), nil)
-			}
-			if prev, ok := lastBits[l]; ok {
-				for _, i := range setBits(prev) {
-					if !bitSet(sl.bits, i) {
-						r.Violation("C11/list/bit-cleared", fmt.Sprintf("bit %d of %s was set in an earlier fetch and is clear now (%s)", i, l, step), nil)
-					}
-				}
-			}
-			lastBits[l] = sl.bits
+			evalList(step, l, sl)
 		}
 	}
+	allLists := func() []string {
+		lists := make([]string, 0, len(model))
+		for l := range model {
+			lists = append(lists, l)
+		}
+		sort.Strings(lists)
+		return lists
+	}
+	checkLists := func(step string) { checkListSet(step, allLists()) }
 	checkVerdicts := func(step string, sample int) {
 		idx := rnd.Perm(len(creds))
 		if sample < len(idx) {
@@ -366,8 +388,10 @@ func TestCheck(t *testing.T) {
 			r.Violation("C11/revoke/refused", fmt.Sprintf("issuer cannot revoke its own credential: %v %s", err, resp), map[string]any{"credential": c.id})
 			return
 		}
+		mu.Lock() // revocations run concurrently in the steps below
 		c.revoked = true
 		model[c.slot.list][c.slot.index] = true
+		mu.Unlock()
 		r.Count("revocations", 1)
 	}
 	checkLists("initial")
@@ -487,6 +511,42 @@ func TestCheck(t *testing.T) {
 		checkVerdicts(step, 6)
 	}
 
+	// (e) faults under the status-list store: every SQL statement of revoke / issue / roll-over / serve-list fails in turn
+	faultMatrix(&faultEnv{r: r, n: n, db: db, f: flt, issuers: issuers, tryIssue: tryIssue, revoke: revoke,
+		markRevoked: func(c *issuedCred) {
+			c.revoked = true
+			model[c.slot.list][c.slot.index] = true
+			r.Count("revocations", 1)
+		},
+		evalList: evalList, checkListSet: checkListSet, lists: allLists,
+		verdictOf: func(step string, c *issuedCred) {
+			ok, msg := verifyVC(n, c.doc)
+			r.Case(fmt.Sprintf("verdict/%s/%v", step, c.revoked), true)
+			r.Count("verdicts", 1)
+			if c.revoked && ok {
+				r.Violation("C11/verdict/revoked-verifies", fmt.Sprintf("revoked credential verifies (%s)", step), map[string]any{"credential": c.id, "slot": c.slot})
+			}
+			if !c.revoked && !ok {
+				r.Violation("C11/verdict/unrevoked-fails", fmt.Sprintf("credential that was never revoked does not verify (%s): %s", step, msg), map[string]any{"credential": c.id, "slot": c.slot})
+			}
+		},
+		credsOn: func(list string) (rev, unrev *issuedCred) {
+			for _, c := range creds {
+				if c.slot.list != list {
+					continue
+				}
+				if c.revoked && rev == nil {
+					rev = c
+				}
+				if !c.revoked {
+					unrev = c // the latest one
+				}
+			}
+			return
+		}})
+	checkLists("after-faults")
+	checkVerdicts("after-faults", 10)
+
 	// signed revocation documents (the did:nuts network form), with hosted did:web parties so that every forgery can be signed for real
 	signedRevocations(r, n, host)
 
@@ -516,6 +576,7 @@ type listServer struct {
 	mu    sync.Mutex
 	lists map[string]func() string // path -> body
 	hits  map[string]int
+	codes map[string]int // path -> HTTP status other than 200
 	url   string
 }
 
@@ -523,12 +584,16 @@ func (s *listServer) ServeHTTP(w http.ResponseWriter, r *http.Request) {
 	s.mu.Lock()
 	f := s.lists[r.URL.Path]
 	s.hits[r.URL.Path]++
+	code := s.codes[r.URL.Path]
 	s.mu.Unlock()
 	if f == nil {
 		http.NotFound(w, r)
 		return
 	}
 	w.Header().Set("Content-Type", "application/json")
+	if code != 0 {
+		w.WriteHeader(code)
+	}
 	_, _ = w.Write([]byte(f()))
 }
 
@@ -537,7 +602,7 @@ func externalLists(t *testing.T, r *ev.Run, n *node.Node) {
 	if err != nil {
 		r.Fatalf("listen: %v", err)
 	}
-	srv := &listServer{lists: map[string]func() string{}, hits: map[string]int{}, url: "http://" + ln.Addr().String()}
+	srv := &listServer{lists: map[string]func() string{}, hits: map[string]int{}, codes: map[string]int{}, url: "http://" + ln.Addr().String()}
 	hs := &http.Server{Handler: srv}
 	go hs.Serve(ln)
 	t.Cleanup(func() { hs.Close() })
@@ -647,6 +712,9 @@ func externalLists(t *testing.T, r *ev.Run, n *node.Node) {
 	// 6. index outside the list
 	u7 := serve("/lists/7", func() string { return mkList(issuer, srv.url+"/lists/7", "revocation", bitsWith(), far) })
 	verdict("index-out-of-range", mkCred(u7, 16*1024*8+5, 9), true, false)
+
+	// 7. several credentialStatus entries: the revoked one at every position, its neighbours unavailable / malformed / of another kind
+	multiEntry(r, n, srv, issuer, subject, mkList, bitsWith, serve)
 
 	hits := 0
 	srv.mu.Lock()
